@@ -11,6 +11,10 @@
 EXTENDS Net, Json, IOUtils
 TldList == JsonDeserialize(IOEnv.TLD_FILE)
 TldSet == {TldList[i] : i \in 1..Len(TldList)}
+Fpos == JsonDeserialize(IOEnv.FPOS_FILE)          \* [root |-> <<byte strings>>, tld |-> <<byte strings>>]
+RootF == {Fpos.root[i] : i \in 1..Len(Fpos.root)}
+TldF == {Fpos.tld[i] : i \in 1..Len(Fpos.tld)}
+IsFalsePositive(d) == FalsePositiveDomain(d, RootF, TldF)
 Traces == ndJsonDeserialize(IOEnv.TRACE_FILE)
 VARIABLES tid, judged
 T == Traces[tid]
@@ -103,7 +107,8 @@ InstExpect ==      \* [dom, ty, val] for the blob
   LET b == T.blob  w == T.what IN
   CASE w = "ip" -> LET ps == SplitAt(b, DOT) IN
          [dom |-> CanonicalQuad(b) /\ ~(\A i \in 1..4 : DecVal(ps[i]) = 0) /\ DecVal(ps[4]) \notin {0, 255}, tys |-> {"network.ip"}, val |-> b]
-    [] w = "domain" -> [dom |-> FreeDomain(b) /\ b[1] # DOT /\ ~(\E i \in 1..(Len(b) - 1) : b[i] = DOT /\ b[i+1] = DOT) /\ T.neutral,
+    [] w = "domain" -> [dom |-> FreeDomain(b) /\ b[1] # DOT /\ ~(\E i \in 1..(Len(b) - 1) : b[i] = DOT /\ b[i+1] = DOT) /\ T.neutral
+                                /\ ~IsFalsePositive(b),          \* the documented false-positive shapes, rule for rule (Net.tla)
                         tys |-> {"network.domain"}, val |-> b]
     [] w = "url" -> [dom |-> UrlShape(b) /\ T.neutral, tys |-> {"network.url"}, val |-> NormalizePercent(b)]
     [] w = "email" -> [dom |-> EmailShape(b) /\ T.neutral, tys |-> {"network.email"}, val |-> b]
@@ -115,7 +120,9 @@ InstExpect ==      \* [dom, ty, val] for the blob
     [] w = "pe" -> [dom |-> T.neutral, tys |-> {"pe_file"}, val |-> b]
 InstClauses ==
   LET x == InstExpect  a == Len(T.pre)  b == a + Len(T.blob) IN
-  IF ~x.dom THEN {"n/a"}
+  IF ~x.dom THEN {"n/a"} \cup (IF T.what = "domain" /\ FreeDomain(T.blob) /\ IsFalsePositive(T.blob)
+                                   /\ \E i \in 1..Len(T.found) : T.found[i].ty = "network.domain" /\ T.found[i].s = a /\ T.found[i].e = b
+                                THEN {"note.falsepositive.reported"} ELSE {})       \* beyond the listed properties: a suppressed shape was reported
   ELSE IF \E i \in 1..Len(T.found) : T.found[i].ty \in x.tys /\ T.found[i].val = x.val /\ T.found[i].s = a /\ T.found[i].e = b
        THEN {} ELSE {"found:" \o T.what}
 
